@@ -250,6 +250,25 @@ Proof.
   apply (loop_value_term c t rest pos true _ a Hnst Het Hlt Hst Hf Hct).
 Qed.
 
+(** `--opt` of an option that REQUIRES `=`, given without it, minimum 0: a complete occurrence without values
+    ([Parser::parse_opt_value]: "Requires equals, but min_vals == 0"), exactly like a flag's *)
+Lemma loop_long_reqeq c tok f a r rest pos vaf st :
+  no_sub c tok -> to_long tok = Some (f, true, None) -> get_long c f = Some a -> a_takes_value a = true ->
+  a_req_eq a = true -> a_num a = Some r -> vmin r = 0 ->
+  parse_loop c (tok :: rest) (lsV pos vaf) st =
+  (do st' <- react_all c [long_occ a []] st; parse_loop c rest (lsV pos true) st').
+Proof.
+  intros Hns Hl Hg Htv Hre Hn Hmin. unfold lsV. cbn [parse_loop l_trailing l_pst l_vaf l_pos].
+  rewrite orb_true_r, (Hns vaf), (to_long_not_escape _ _ Hl), Hl.
+  rewrite parse_long_arg_unfold. cbn [state_arg rbind negb].
+  rewrite (to_long_flag_nonempty _ _ _ Hl). cbn [andb].
+  rewrite (long_exact_wins c f a Hg). unfold parse_long_found. rewrite Htv.
+  unfold parse_opt_value. cbn [is_some negb]. rewrite Hre. cbn [andb]. rewrite Hn. cbn [expect rbind]. rewrite Hmin.
+  change (0 =? 0) with true. cbn iota.
+  cbn [react_all long_occ o_ident o_src o_arg o_raw o_ti].
+  destruct (react c (Some ILong) SCmdLine a [] None st) as [[st1 pr]|e st1|site] eqn:Er; cbn [rbind fst snd]; try reflexivity.
+Qed.
+
 (** * The wider items *)
 
 (** no argument of the level accepts hyphen values or negative numbers (a word that looks like an option is one) *)
@@ -287,6 +306,10 @@ Inductive item18 (c : cmd) : list bytes -> (ps -> res ps) -> Prop :=
     N.of_nat (length vs) < vmax r -> Forall (value_tok c a) vs ->
     no_sub c t -> plain_tok t -> check_terminator a t = true ->
     item18 c (tok :: vs ++ [t]) (sepm_fn c IShort a vs)
+| i18_long_reqeq tok f a r :          (* `--opt` of an option that requires `=`, without it, minimum 0: complete, no values *)
+    no_sub c tok -> to_long tok = Some (f, true, None) -> get_long c f = Some a -> a_takes_value a = true ->
+    a_req_eq a = true -> a_num a = Some r -> vmin r = 0 ->
+    item18 c [tok] (react_all c [long_occ a []])
 | i18_long_partial tok f a r vs toks2 F2 :  (* `--opt v1 .. vj` PARTIALLY FILLED (j below the maximum), then another option item *)
     hyphen_free c ->
     no_sub c tok -> to_long tok = Some (f, true, None) -> get_long c f = Some a -> a_takes_value a = true ->
@@ -345,6 +368,7 @@ Proof.
   - exists tok, (vs ++ [t]). split; [reflexivity|]. split; [assumption|]. split; [eapply to_long_not_escape; eauto|]. left. eauto.
   - exists tok, (vs ++ [t]). split; [reflexivity|]. split; [assumption|]. split; [assumption|]. right. split; [assumption|].
     exists r0. split; [assumption|eapply sf_next_nonempty; eauto].
+  - exists tok, []. split; [reflexivity|]. split; [assumption|]. split; [eapply to_long_not_escape; eauto|]. left. eauto.
   - exists tok, (vs ++ toks2). split; [reflexivity|]. split; [assumption|]. split; [eapply to_long_not_escape; eauto|]. left. eauto.
   - exists tok, (vs ++ toks2). split; [reflexivity|]. split; [assumption|]. split; [assumption|]. right. split; [assumption|].
     exists r0. split; [assumption|eapply sf_next_nonempty; eauto].
@@ -371,7 +395,7 @@ Qed.
 
 Lemma item18_fs c toks F : item18 c toks F -> forall st st', F st = ROk st' -> fs_skip st' = fs_skip st /\ fs_at st' = fs_at st.
 Proof.
-  induction 1 as [toks F Hi| | | | | |tok f a r vs toks2 F2 Hhf Hns Hl Hg Htv Hre Hf Hn Hlen Hall Hi2 IH
+  induction 1 as [toks F Hi| | | | | | |tok f a r vs toks2 F2 Hhf Hns Hl Hg Htv Hre Hf Hn Hlen Hall Hi2 IH
                  |tok r0 ch a r vs toks2 F2 Hhf Hns He Hl Hs Hnx Hg Htv Hre Hnh Hf Hn Hlen Hall Hi2 IH]; intros st st' HF.
   - split; [eapply item_fs; eauto|eapply item_fsat; eauto].
   - split; [apply (react_all_fs _ _ _ _ HF)|apply (react_all_fsat _ _ _ _ HF)].
@@ -379,6 +403,7 @@ Proof.
   - eapply sepm_fn_fs; eauto.
   - eapply sepm_fn_fs; eauto.
   - eapply sepm_fn_fs; eauto.
+  - split; [apply (react_all_fs _ _ _ _ HF)|apply (react_all_fsat _ _ _ _ HF)].
   - destruct (sepm_fn c ILong a vs st) as [st1|e s1|x] eqn:E; cbn [rbind] in HF; try discriminate.
     destruct (IH _ _ HF) as [H1 H2]. destruct (sepm_fn_fs _ _ _ _ _ _ E) as [H3 H4]. rewrite H1, H2. split; assumption.
   - destruct (sepm_fn c IShort a vs st) as [st1|e s1|x] eqn:E; cbn [rbind] in HF; try discriminate.
@@ -388,7 +413,7 @@ Qed.
 Lemma item18_step c toks F : item18 c toks F -> forall rest pos vaf st, fs_skip st = 0 ->
   parse_loop c (toks ++ rest) (lsV pos vaf) st = (do st' <- F st; parse_loop c rest (lsV pos true) st').
 Proof.
-  induction 1 as [toks F Hi| | | | | |tok f a r vs toks2 F2 Hhf Hns Hl Hg Htv Hre Hf Hn Hlen Hall Hi2 IH
+  induction 1 as [toks F Hi| | | | | | |tok f a r vs toks2 F2 Hhf Hns Hl Hg Htv Hre Hf Hn Hlen Hall Hi2 IH
                  |tok r0 ch a r vs toks2 F2 Hhf Hns He Hl Hs Hnx Hg Htv Hre Hnh Hf Hn Hlen Hall Hi2 IH];
     intros rest pos vaf st Hfs; cbn [app].
   - apply item_step; assumption.
@@ -397,6 +422,7 @@ Proof.
   - apply (loop_short_multi c tok r0 ch a r vs); assumption.
   - apply (loop_long_term c tok f a r vs t); assumption.
   - apply (loop_short_term c tok r0 ch a r vs t); assumption.
+  - apply (loop_long_reqeq c tok f a r); assumption.
   - rewrite <- app_assoc.
     rewrite (loop_long_open c tok f a (vs ++ toks2 ++ rest) pos vaf st Hns Hl Hg Htv Hre).
     unfold sepm_fn. destruct (resolve_pending c st) as [st1|e s1|x] eqn:RP; cbn [rbind]; try reflexivity.
@@ -424,7 +450,7 @@ Proof. intros Hi. destruct Hi; try reflexivity. eapply item_nonempty; eauto. Qed
 
 Lemma item18_err c toks F : item18 c toks F -> forall st e s, F st = RErr e s -> reaction_error c e.
 Proof.
-  induction 1 as [toks F Hi| | | | | |tok f a r vs toks2 F2 Hhf Hns Hl Hg Htv Hre Hf Hn Hlen Hall Hi2 IH
+  induction 1 as [toks F Hi| | | | | | |tok f a r vs toks2 F2 Hhf Hns Hl Hg Htv Hre Hf Hn Hlen Hall Hi2 IH
                  |tok r0 ch a r vs toks2 F2 Hhf Hns He Hl Hs Hnx Hg Htv Hre Hnh Hf Hn Hlen Hall Hi2 IH]; intros st e s HF.
   - eapply item_err; eauto.
   - eapply react_all_err; eauto.
@@ -432,6 +458,7 @@ Proof.
   - eapply sepm_fn_err; eauto.
   - eapply sepm_fn_err; eauto.
   - eapply sepm_fn_err; eauto.
+  - eapply react_all_err; eauto.
   - destruct (sepm_fn c ILong a vs st) as [st1|e1 s1|x] eqn:E; cbn [rbind] in HF.
     + eapply IH; eauto.
     + inversion HF; subst. eapply sepm_fn_err; eauto.
@@ -519,27 +546,33 @@ Qed.
 Lemma eng_item18 toks F : item18 pc toks F -> forall pi evaf,
   shadow_run toks cur pi false ValueDone evaf = SNext cur pi false ValueDone true.
 Proof.
-  induction 1 as [toks F Hi| | | | | |tok f a r vs toks2 F2 Hhf Hns Hl Hg Htv Hre Hf Hn Hlen Hall Hi2 IH
+  induction 1 as [toks F Hi| | | | | | |tok f a r vs toks2 F2 Hhf Hns Hl Hg Htv Hre Hf Hn Hlen Hall Hi2 IH
                  |tok r0 ch a r vs toks2 F2 Hhf Hns He Hl Hs Hnx Hg Htv Hre Hnh Hf Hn Hlen Hall Hi2 IH]; intros pi evaf.
   - apply (eng_item pc cur L toks F pi evaf). assumption.
   - (* -o=v *) cbn [shadow_run]. rewrite (eng_short_opt pc cur L tok r ch (61 :: v) a pi evaf) by assumption. reflexivity.
   - (* --opt v1 .. vk *) cbn [shadow_run]. rewrite (eng_long pc cur L tok f None a pi evaf) by assumption.
-    match goal with H : a_takes_value a = true |- _ => rewrite H end. cbn [is_none andb].
+    match goal with H : a_takes_value a = true |- _ => rewrite H end.
+    match goal with H : a_req_eq a = false |- _ => rewrite H end. cbn [is_none andb negb].
     apply (eng_values_full a r pi true); try assumption. lia.
-  - (* -o v1 .. vk *) cbn [shadow_run]. rewrite (eng_short_opt pc cur L tok r0 ch [] a pi evaf) by assumption. cbn [is_nil].
+  - (* -o v1 .. vk *) cbn [shadow_run]. rewrite (eng_short_opt pc cur L tok r0 ch [] a pi evaf) by assumption.
+    match goal with H : a_req_eq a = false |- _ => rewrite H end. cbn [is_nil andb negb].
     apply (eng_values_full a r pi true); try assumption. lia.
   - (* --opt v1 .. vj ; *) cbn [shadow_run]. rewrite (eng_long pc cur L tok f None a pi evaf) by assumption.
-    match goal with H : a_takes_value a = true |- _ => rewrite H end. cbn [is_none andb].
+    match goal with H : a_takes_value a = true |- _ => rewrite H end.
+    match goal with H : a_req_eq a = false |- _ => rewrite H end. cbn [is_none andb negb].
     rewrite shadow_run_app, (eng_values_open a r pi true) by (try assumption; lia).
     cbn [shadow_run]. rewrite (eng_term_step t a pi _ true) by assumption. reflexivity.
-  - (* -o v1 .. vj ; *) cbn [shadow_run]. rewrite (eng_short_opt pc cur L tok r0 ch [] a pi evaf) by assumption. cbn [is_nil].
+  - (* -o v1 .. vj ; *) cbn [shadow_run]. rewrite (eng_short_opt pc cur L tok r0 ch [] a pi evaf) by assumption.
+    match goal with H : a_req_eq a = false |- _ => rewrite H end. cbn [is_nil andb negb].
     rewrite shadow_run_app, (eng_values_open a r pi true) by (try assumption; lia).
     cbn [shadow_run]. rewrite (eng_term_step t a pi _ true) by assumption. reflexivity.
-  - (* --opt v1 .. vj, then an item *) cbn [shadow_run]. rewrite (eng_long pc cur L tok f None a pi evaf Hns Hl Hg), Htv. cbn [is_none andb].
+  - (* --opt, requires `=` *) cbn [shadow_run]. rewrite (eng_long pc cur L tok f None a pi evaf) by assumption.
+    match goal with H : a_req_eq a = true |- _ => rewrite H end. rewrite andb_false_r. reflexivity.
+  - (* --opt v1 .. vj, then an item *) cbn [shadow_run]. rewrite (eng_long pc cur L tok f None a pi evaf Hns Hl Hg), Htv, Hre. cbn [is_none andb negb].
     rewrite shadow_run_app, (eng_values_open a r pi true Hn vs 1 Hall) by lia.
     rewrite (eng_partial_then a _ toks2 F2 pi true Hhf Hf Hi2). apply IH.
   - (* -o v1 .. vj, then an item *) cbn [shadow_run].
-    rewrite (eng_short_opt pc cur L tok r0 ch [] a pi evaf Hns He Hl Hs Hnx Hg Htv). cbn [is_nil].
+    rewrite (eng_short_opt pc cur L tok r0 ch [] a pi evaf Hns He Hl Hs Hnx Hg Htv), Hre. cbn [is_nil andb negb].
     rewrite shadow_run_app, (eng_values_open a r pi true Hn vs 1 Hall) by lia.
     rewrite (eng_partial_then a _ toks2 F2 pi true Hhf Hf Hi2). apply IH.
 Qed.
@@ -557,7 +590,7 @@ Theorem values_agree pc cur tok f a r vs : elevel pc cur ->
      (do st' <- sepm_fn pc ILong a vs st; parse_loop pc rest (mkL (PSOpt (a_id a)) pos true false) st')).
 Proof.
   intros L Hns Hl Hg Htv Hre Hf Hn Hlen Hall. split.
-  - intros pi evaf. cbn [shadow_run]. rewrite (eng_long pc cur L tok f None a pi evaf Hns Hl Hg), Htv. cbn [is_none andb].
+  - intros pi evaf. cbn [shadow_run]. rewrite (eng_long pc cur L tok f None a pi evaf Hns Hl Hg), Htv, Hre. cbn [is_none andb negb].
     apply (eng_values_open pc cur L a r pi true Hn vs 1 Hall). lia.
   - intros rest pos vaf st.
     rewrite (loop_long_open pc tok f a (vs ++ rest) pos vaf st Hns Hl Hg Htv Hre).
